@@ -323,6 +323,12 @@ func genRootUnchecked(rng *rand.Rand, class string) Root {
 		g := ref.NewGame(ref.MustFEN(fen))
 		playout(rng, g, plies, "reversible")
 		return mk(fen, g, class)
+	case "long-game":
+		// a game of many hundred plies: a position command of several kilobytes,
+		// a hash history that outgrows its initial capacity
+		g := ref.NewGame(ref.MustFEN(ref.StartFEN))
+		playout(rng, g, 700+rng.IntN(500), pick(rng, []string{"reversible", ""}))
+		return mk(ref.StartFEN, g, class)
 	case "endgame":
 		r := randomEndgame(rng)
 		g := ref.NewGame(ref.MustFEN(r.FEN))
